@@ -14,6 +14,7 @@ import (
 	"testing"
 
 	"github.com/theory/sqljson/path"
+	"github.com/theory/sqljson/path/exec"
 	"pgregory.net/rapid"
 )
 
@@ -33,7 +34,15 @@ type ConcScenario struct {
 	Vars       map[string]string `json:"vars"`
 	UseNumber  bool              `json:"use_number,omitempty"`
 	Zone       string            `json:"zone,omitempty"`
+	Zones      []string          `json:"zones,omitempty"` // per goroutine; overrides Zone when set
 	Goroutines [][]ConcOp        `json:"goroutines"`
+}
+
+func (c ConcScenario) zoneOf(gi int) string {
+	if gi < len(c.Zones) {
+		return c.Zones[gi]
+	}
+	return c.Zone
 }
 
 var concBasePool = []string{
@@ -41,10 +50,15 @@ var concBasePool = []string{
 	`$.a.keyvalue()`, `$.keyvalue().key`, `$x[*] ? (@ > $y)`, `$.a[*] ? (exists(@.c ? (@ > $y)))`, `strict $.**.b`, `$.a[last].b`, `$.a[0 to last].size()`,
 	`($.a[*].b starts with "a") is unknown`, `-$.n`, `$.n * 2 + 1`, `$.n.decimal(5,2)`, `$.a[*].b.string().type()`, `$.a ? (@[*].c > 1 && !(@[*].c > 5))`, `$x.size() == 3`, `strict $.nokey`,
 	`$.t.time_tz(2)`, `$.n.double() / 0`, `$[*]`, `$.a[*].c ? (@.type() == "number").abs()`,
+	// literals that take the slow path of the printer (BEL, unprintable astral code points), each different
+	"$.\"\u0007a\"", "\"\U000E0001x\" == $.a", "$\"v\u0007w\"", "$ like_regex \"\u0007+\"", "$.\"k\U000E0002\".\"\u0007\"", "$.a ? (@.b == \"\u0007\U000E0003\")",
+	// values with their own offsets, cast and compared in the context zone of the caller
+	`$.ts[*].timestamp_tz()`, `$.ts[*].time_tz()`, `$.ts[*].timestamp_tz().string()`, `$.ts[*] ? (@.timestamp_tz() < "2015-08-01T12:00:00+00:00".timestamp_tz())`, `$.tms[*].time_tz().string()`, `$.tms[*].time().time_tz()`,
+	`$.ts[*].timestamp()`, `$.ts[*].date()`, `$.s.timestamp_tz()`, `$.s.date().timestamp_tz().string()`, `$.ts[*].timestamp_tz().timestamp().string()`,
 }
 
 var concDocs = []string{
-	`{"a":[{"b":"ab","c":1},{"b":"Ax","c":[2,7]},{"b":null}],"s":"2015-08-01","t":"2015-08-01T12:34:56+05:30","d":"2015-08-02","n":-2.5}`,
+	`{"a":[{"b":"ab","c":1},{"b":"Ax","c":[2,7]},{"b":null}],"s":"2015-08-01","t":"2015-08-01T12:34:56+05:30","d":"2015-08-02","n":-2.5,"ts":["2015-08-01T12:34:56+05:30","2015-08-01T01:00:00-08:00","2015-08-01T23:59:59+00:00","2015-08-01T00:00:01-03:30","2015-08-01T12:00:00+14:00"],"tms":["12:34:56+05:30","01:00:00-08:00","23:59:59+00:00","00:00:01-03:30","12:00:00"]}`,
 	`[1,"a",null,[2,3],{"a":1}]`,
 	`{"a":{"b":1},"n":"x"}`,
 }
@@ -60,7 +74,7 @@ func (r concResult) String() string {
 	return fmt.Sprintf("class=%s items=%v bool=%v text=%q", r.class, r.items, r.boolv, r.text)
 }
 
-func runConcOp(op ConcOp, paths []*path.Path, texts []string, docs []any, o Opts, vars map[string]any) (res concResult) {
+func runConcOp(op ConcOp, zone string, paths []*path.Path, texts []string, docs []any, o Opts, vars map[string]any) (res concResult) {
 	defer func() {
 		if r := recover(); r != nil {
 			res = concResult{class: EPanic, text: fmt.Sprint(r)}
@@ -69,6 +83,7 @@ func runConcOp(op ConcOp, paths []*path.Path, texts []string, docs []any, o Opts
 	p := paths[op.Path]
 	opts := o
 	opts.Silent = op.Silent
+	opts.Zone = zone
 	eo := opts.Options(vars)
 	ctx := opts.Ctx()
 	switch op.Kind {
@@ -131,13 +146,14 @@ var checkConc = register("c19.scenario", func(c ConcScenario) *Violation {
 		p, d   int
 		kind   string
 		silent bool
+		zone   string
 	}
 	want := map[key]concResult{}
-	for _, g := range c.Goroutines {
+	for gi, g := range c.Goroutines {
 		for _, op := range g {
-			k := key{op.Path, op.Doc, op.Kind, op.Silent}
+			k := key{op.Path, op.Doc, op.Kind, op.Silent, c.zoneOf(gi)}
 			if _, ok := want[k]; !ok {
-				want[k] = runConcOp(op, refPaths, c.Paths, docs, o, vars)
+				want[k] = runConcOp(op, c.zoneOf(gi), refPaths, c.Paths, docs, o, vars)
 			}
 		}
 	}
@@ -155,7 +171,7 @@ var checkConc = register("c19.scenario", func(c ConcScenario) *Violation {
 				if op.Yield {
 					runtime.Gosched()
 				}
-				got[gi][i] = runConcOp(op, paths, c.Paths, docs, o, vars)
+				got[gi][i] = runConcOp(op, c.zoneOf(gi), paths, c.Paths, docs, o, vars)
 			}
 		}(gi, g)
 	}
@@ -163,10 +179,10 @@ var checkConc = register("c19.scenario", func(c ConcScenario) *Violation {
 	wg.Wait()
 	for gi, g := range c.Goroutines {
 		for i, op := range g {
-			w, r := want[key{op.Path, op.Doc, op.Kind, op.Silent}], got[gi][i]
+			w, r := want[key{op.Path, op.Doc, op.Kind, op.Silent, c.zoneOf(gi)}], got[gi][i]
 			open := orderOpen(trees[op.Path].Root, docs[op.Doc], varsTyped)
 			chainedKV := strings.Count(c.Paths[op.Path], "keyvalue()") >= 2
-			at := fmt.Sprintf("goroutine %d call %d: %s(%q, doc %d, silent=%v)", gi, i, op.Kind, c.Paths[op.Path], op.Doc, op.Silent)
+			at := fmt.Sprintf("goroutine %d (zone %q) call %d: %s(%q, doc %d, silent=%v)", gi, c.zoneOf(gi), i, op.Kind, c.Paths[op.Path], op.Doc, op.Silent)
 			if strings.Contains(r.class, EPanic) {
 				return violf("%s panicked when run concurrently: %s", at, r.text)
 			}
@@ -193,7 +209,7 @@ var checkConc = register("c19.scenario", func(c ConcScenario) *Violation {
 	// repeating the calls after this history, alone, on the paths the goroutines used
 	for k, w := range want {
 		op := ConcOp{Path: k.p, Doc: k.d, Kind: k.kind, Silent: k.silent}
-		r := runConcOp(op, paths, c.Paths, docs, o, vars)
+		r := runConcOp(op, k.zone, paths, c.Paths, docs, o, vars)
 		open := orderOpen(trees[k.p].Root, docs[k.d], varsTyped)
 		if open || strings.Count(c.Paths[k.p], "keyvalue()") >= 2 {
 			continue
@@ -212,9 +228,144 @@ var checkConc = register("c19.scenario", func(c ConcScenario) *Violation {
 	return nil
 })
 
+// AliasCase: a parsed Path is a value of its own. Re-parsing the same text, or
+// scanning / unmarshalling another text into a second Path, must not change a
+// Path somebody else holds; and the option values of one call (two WithVars
+// maps) are not written to.
+type AliasCase struct {
+	T2  string `json:"t"`
+	U2  string `json:"u"`
+	Doc string `json:"doc"`
+	How string `json:"how"` // Scan | UnmarshalText | UnmarshalBinary
+}
+
+var checkAlias = register("c19.alias", func(c AliasCase) *Violation {
+	tText, uText := c.T2, c.U2
+	a, err := path.Parse(tText)
+	if err != nil {
+		return nil
+	}
+	if _, err := path.Parse(uText); err != nil {
+		return nil
+	}
+	doc, derr := Decode(c.Doc, false)
+	if derr != nil {
+		return nil
+	}
+	wantText := a.String()
+	before := RunQuery(Opts{}.Ctx(), a, doc)
+	tree := PathFromAST(a.AST)
+	// a second holder parses the same text and then reads another path into its variable
+	b, err := path.Parse(tText)
+	if err != nil {
+		return violf("Parse(%q) succeeded once and failed the second time: %v", tText, err)
+	}
+	var serr error
+	switch c.How {
+	case "Scan":
+		serr = b.Scan(uText)
+	case "UnmarshalText":
+		serr = b.UnmarshalText([]byte(uText))
+	default:
+		serr = b.UnmarshalBinary([]byte(uText))
+	}
+	if serr != nil {
+		return violf("%s(%q) into a parsed Path failed: %v", c.How, uText, serr)
+	}
+	if got := a.String(); got != wantText {
+		return violf("a Path parsed from %q prints as %q after another Path parsed from the same text was overwritten by %s(%q)", tText, got, c.How, uText)
+	}
+	if orderOpen(tree.Root, doc) {
+		return nil
+	}
+	after := RunQuery(Opts{}.Ctx(), a, doc)
+	if before.Class != after.Class || !sameSeq(RenderSeq(before.Items, true), RenderSeq(after.Items, true)) {
+		return violf("Query(%q) changed from %s to %s after another Path parsed from the same text was overwritten by %s(%q)", tText, before, after, c.How, uText)
+	}
+	fresh, err := path.Parse(tText)
+	if err != nil || fresh.String() != wantText {
+		return violf("Parse(%q) now yields %v (%v), before it printed %q", tText, fresh, err, wantText)
+	}
+	return nil
+})
+
+// VarsCase: one call with two WithVars options, then calls with each map alone.
+type VarsCase struct {
+	Path string            `json:"path"`
+	Doc  string            `json:"doc"`
+	V1   map[string]string `json:"v1"`
+	V2   map[string]string `json:"v2"`
+}
+
+var checkVarsShared = register("c19.vars", func(c VarsCase) *Violation {
+	p, err := path.Parse(c.Path)
+	if err != nil {
+		return nil
+	}
+	doc, derr := Decode(c.Doc, false)
+	if derr != nil {
+		return nil
+	}
+	v1, v2 := (Opts{Vars: c.V1, HasVars: true}).VarsValue(), (Opts{Vars: c.V2, HasVars: true}).VarsValue()
+	c1, c2 := deepCopy(v1), deepCopy(v2)
+	tree := PathFromAST(p.AST)
+	alone1 := RunQuery(Opts{}.Ctx(), p, doc, exec.WithVars(v1))
+	alone2 := RunQuery(Opts{}.Ctx(), p, doc, exec.WithVars(v2))
+	both := RunQuery(Opts{}.Ctx(), p, doc, exec.WithVars(v1), exec.WithVars(v2))
+	if both.Panic != "" {
+		return violf("Query(%q) with two WithVars options panicked: %s", c.Path, both.Panic)
+	}
+	if !deepEqualJSON(c1, v1) || !deepEqualJSON(c2, v2) {
+		return violf("a variables map passed to Query(%q) was modified: first %v -> %v, second %v -> %v", c.Path, Render(map[string]any(c1.(exec.Vars)), false), Render(map[string]any(v1), false), Render(map[string]any(c2.(exec.Vars)), false), Render(map[string]any(v2), false))
+	}
+	if orderOpen(tree.Root, doc, v1) || orderOpen(tree.Root, doc, v2) {
+		return nil
+	}
+	again1 := RunQuery(Opts{}.Ctx(), p, doc, exec.WithVars(v1))
+	again2 := RunQuery(Opts{}.Ctx(), p, doc, exec.WithVars(v2))
+	for _, x := range []struct{ a, b Outcome }{{alone1, again1}, {alone2, again2}} {
+		if x.a.Class != x.b.Class || !sameSeq(RenderSeq(x.a.Items, true), RenderSeq(x.b.Items, true)) {
+			return violf("Query(%q) with one variables map returned %s before and %s after a call that was given two maps", c.Path, x.a, x.b)
+		}
+	}
+	return nil
+})
+
 func TestC19(t *testing.T) {
 	ev := newEv(t, "C19")
 	ev.replayTier(t)
+	ev.rapidProp(t, "alias", func(rt *rapid.T) {
+		gcfg := GenCfg{MaxNodes: 8, HardErrPct: 5}
+		pick := func(l string) string {
+			if rapid.Bool().Draw(rt, l+"pool") {
+				return concBasePool[rapid.IntRange(0, len(concBasePool)-1).Draw(rt, l+"idx")]
+			}
+			return GenPath(rt, gcfg).Canon()
+		}
+		c := AliasCase{T2: pick("t"), U2: pick("u"), Doc: concDocs[rapid.IntRange(0, len(concDocs)-1).Draw(rt, "doc")], How: rapid.SampledFrom([]string{"Scan", "UnmarshalText", "UnmarshalBinary"}).Draw(rt, "how")}
+		key, _ := json.Marshal(c)
+		ev.Eval("alias"+string(key), c.T2 != c.U2)
+		ev.Sample("alias", c)
+		ev.Check(rt, "c19.alias", c, checkAlias(c))
+	})
+	ev.rapidProp(t, "vars", func(rt *rapid.T) {
+		paths := []string{`$x`, `$y`, `$x[*] ? (@ > $y)`, `$.a[*] ? (@.c == $y)`, `$z`, `$x.size() + $y`, `exists($z)`, `$w`, `$y == 1 || $w == 1`}
+		vals := []string{`1`, `[1,2,3]`, `"a"`, `{"a":1}`, `null`}
+		mk := func(l string) map[string]string {
+			m := map[string]string{}
+			for _, n := range []string{"x", "y", "z", "w"} {
+				if rapid.IntRange(0, 2).Draw(rt, l+n) > 0 {
+					m[n] = vals[rapid.IntRange(0, len(vals)-1).Draw(rt, l+n+"v")]
+				}
+			}
+			return m
+		}
+		c := VarsCase{Path: paths[rapid.IntRange(0, len(paths)-1).Draw(rt, "path")], Doc: concDocs[rapid.IntRange(0, len(concDocs)-1).Draw(rt, "doc")], V1: mk("a"), V2: mk("b")}
+		key, _ := json.Marshal(c)
+		ev.Eval("vars"+string(key), len(c.V1) > 0 && len(c.V2) > 0)
+		ev.Sample("vars", c)
+		ev.Check(rt, "c19.vars", c, checkVarsShared(c))
+	})
 	lastFile := filepath.Join(replayDir(), fmt.Sprintf("C19-last-scenario-s%d.json", shard()))
 	ev.rapidProp(t, "scenarios", func(rt *rapid.T) {
 		var sc ConcScenario
@@ -233,6 +384,13 @@ func TestC19(t *testing.T) {
 		sc.UseNumber = rapid.Bool().Draw(rt, "num")
 		sc.Zone = rapid.SampledFrom([]string{"", "UTC", "+05:30", "America/New_York"}).Draw(rt, "zone")
 		g := rapid.IntRange(2, 16).Draw(rt, "goroutines")
+		if rapid.Bool().Draw(rt, "mixedzones") {
+			// every goroutine works in its own context zone
+			zs := []string{"", "UTC", "+05:30", "America/New_York", "-12:00", "Australia/Sydney", "-05:00", "+10:00"}
+			for gi := 0; gi < g; gi++ {
+				sc.Zones = append(sc.Zones, zs[rapid.IntRange(0, len(zs)-1).Draw(rt, "gzone")])
+			}
+		}
 		kinds := []string{"Query", "Query", "First", "Exists", "Match", "String", "Parse"}
 		hot := rapid.IntRange(0, n-1).Draw(rt, "hotpath") // several goroutines hammer the same path
 		for gi := 0; gi < g; gi++ {
